@@ -247,7 +247,7 @@ func ordEvalSnapshot(r *core.Run, u []ordVariant, c *ordCase) {
 
 func runC13(r *core.Run) {
 	r.Rule("(a) the four strict-weak-order laws (irreflexive, asymmetric, transitive, transitive incomparability) of the real comparator (through the hook) on ALL triples of a signature universe varying stack length 0..3, per-frame location class (5), package-main membership, function/file/line, lock flag, state; " +
-		"(b) the stated consequence on all pairs: all-stdlib after main/module/GOPATH/module-cache code; (d) black box on the whole comparison incl. its last tie-breaks: buckets that tie under the signature comparison (same frames, other creators) with varying sleep ranges and sizes, aggregated in 10 arrival orders - two buckets may swap places only if they are in arrival order everywhere; (c) black box: aggregations of 2..7 goroutines from the universe - bucket order is a linear extension of the comparator, First bucket first, user code before all-stdlib. " +
+		"(b) the stated consequence on all pairs: all-stdlib after main/module/GOPATH/module-cache code; (d) black box on the whole comparison incl. its last tie-breaks: buckets that tie under the signature comparison (same frames, other creators) with varying sleep ranges and sizes, aggregated in 10 arrival orders - two buckets may swap places only if they are in arrival order everywhere; (e) black box on transitive incomparability: buckets that tie under the signature comparison but differ in creator, argument values, upper directories or the elision flag, and in size - two buckets alone in both arrival orders tell whether they are tied or strictly ordered; 'tied' must be transitive over all triples and every larger aggregation must present strictly ordered buckets in that order; (c) black box: aggregations of 2..7 goroutines from the universe - bucket order is a linear extension of the comparator, First bucket first, user code before all-stdlib. " +
 		"distinct by construction (triples) / by hash (snapshots); non-trivial = the three signatures are pairwise different")
 	full := !r.Quick()
 	u := ordUniverse(full)
@@ -329,11 +329,21 @@ func runC13(r *core.Run) {
 		}
 	})
 	c13Perm(r)
+	c13Pair(r)
 	c13Deep(r)
 	r.Sample(map[string]any{"triple_example": []string{u[1].Desc, u[n/3].Desc, u[n-2].Desc}})
 }
 
 func replayC13(r *core.Run, kind string, raw json.RawMessage) {
+	if kind == "pair" {
+		var pc pairCase
+		if err := json.Unmarshal(raw, &pc); err != nil {
+			r.Broken(err.Error())
+			return
+		}
+		c13PairEval(r, &pc)
+		return
+	}
 	if kind == "perm" {
 		var pc permCase
 		if err := json.Unmarshal(raw, &pc); err != nil {
